@@ -239,25 +239,36 @@ def run(prog: Program, res: Result, tier: str) -> None:
     writes = [c for c in calls_in_body(ed.node) if isinstance(c.func, ast.Attribute) and c.func.attr in ("write", "writelines", "truncate", "tofile")]
     opens = [c for c in calls_in_body(ed.node) if isinstance(c.func, ast.Attribute) and c.func.attr == "open" or dotted(c.func) == "open"]
     encs = [c for c in calls_in_body(ed.node) if dotted(c.func) == "encode_header"]
-    guards = [s for s in body_walk(ed.node) if isinstance(s, ast.If) and norm(s.test) in ("header['hdrlen'] == len(new_hdr)", "len(new_hdr) == header['hdrlen']")]
+    from ..normalform import canon, normal_form
+    from ..pathcond import guarded, path_conditions
+    from ..poly import PolyEnv
     key = "edit:guard"
-    if len(writes) == 1 and len(guards) == 1 and len(opens) == 1 and len(encs) == 1:
-        g = guards[0]
-        gn = cfg.node_for(g)
+    if len(writes) == 1 and len(opens) == 1 and len(encs) == 1:
         wn = cfg.node_for(writes[0])
         on = cfg.node_for(opens[0])
-        in_true = any(writes[0] is x for s in g.body for x in ast.walk(s)) and any(opens[0] is x for s in g.body for x in ast.walk(s))
-        if in_true and cfg.dominates(gn, wn) and cfg.dominates(gn, on):
-            res.ok("R5", ed, g, "the file is opened and written only on the equal-length branch", key=key)
+        written = flow.expand(writes[0].args[0], wn) if writes[0].args else None
+        # the guard compares the parsed header's length with the length of exactly what is written
+        hdrs = [d for d in flow.defs if d.kind == "assign" and isinstance(d.value, ast.Call) and dotted(d.value.func) == "parse_header"]
+        okg, why = False, ["the parsed header is not a single local"]
+        if written is not None and len(hdrs) == 1:
+            penv = PolyEnv()
+            old_len = penv.poly(ast.parse(f"parse_header({norm(hdrs[0].value.args[0])})['hdrlen']", mode="eval").body)
+            new_len = penv.poly(ast.Call(func=ast.Name(id="len", ctx=ast.Load()), args=[written], keywords=[]))
+            okg, why = guarded(flow, [opens[0], writes[0]], [("==0", old_len - new_len)], exc=None)
+        if okg:
+            res.ok("R5", ed, writes[0], "the file is opened and written only when the new header is exactly as long as the old one", key=key)
         else:
-            res.bad("R5", ed, g, "the in-place write (or the open) is not confined to the equal-length branch", key=key)
+            res.bad("R5", ed, writes[0], "the in-place write (or the open) is not confined to the equal-length case: " + "; ".join(why), key=key)
         key = "edit:else-raises"
-        if g.orelse and always_raises(g.orelse) and "ValueError" in norm(ast.Module(body=g.orelse, type_ignores=[])):
-            res.ok("R5", ed, g, "a header of different length raises ValueError and nothing is opened", key=key)
+        okr, why = guarded(flow, [writes[0]], [("==0", old_len - new_len)], exc="ValueError") if okg else (False, why)
+        if okr:
+            res.ok("R5", ed, writes[0], "a header of different length raises ValueError and nothing is opened", key=key)
         else:
-            res.bad("R5", ed, g, "a header of different length does not raise ValueError", key=key)
+            res.bad("R5", ed, writes[0], "a header of different length does not raise ValueError", key=key)
         key = "edit:mode"
         mode = opens[0].args[0] if opens[0].args and dotted(opens[0].func) != "open" else (opens[0].args[1] if len(opens[0].args) > 1 else None)
+        if mode is None:
+            mode = next((k.value for k in opens[0].keywords if k.arg == "mode"), None)
         mlit = mode.value if isinstance(mode, ast.Constant) else None
         if isinstance(mlit, str) and "+" in mlit and "r" in mlit and "w" not in mlit and "a" not in mlit:
             res.ok("R5", ed, opens[0], f"file opened with mode {mlit!r}: read/write without truncation", key=key)
@@ -270,23 +281,38 @@ def run(prog: Program, res: Result, tier: str) -> None:
             res.bad("R5", ed, encs[0], "the file is opened for writing before encode_header has succeeded", key=key)
         key = "edit:position"
         seeks = [c for c in calls_in_body(ed.node) if isinstance(c.func, ast.Attribute) and c.func.attr == "seek"]
-        okpos = len(seeks) == 1 and norm(seeks[0].args[0]) == "0" and cfg.dominates(cfg.node_for(seeks[0]), wn) and norm(writes[0].args[0]) == "new_hdr"
+        okpos = len(seeks) == 1 and norm(seeks[0].args[0]) == "0" and (len(seeks[0].args) == 1 or norm(seeks[0].args[1]) in ("0", "os.SEEK_SET")) and \
+            cfg.dominates(cfg.node_for(seeks[0]), wn) and written is not None and isinstance(written, ast.Call) and dotted(written.func) == "encode_header"
         (res.ok if okpos else res.bad)("R5", ed, writes[0], "exactly the new header bytes are written at offset 0" if okpos else
-                                       "the write is not `new_hdr` at byte 0", key=key)
+                                       "the write is not the re-encoded header at byte 0", key=key)
         key = "edit:new-hdr"
-        ds = flow.reaching("hdr", cfg.node_for(encs[0]))
-        srce = norm(ed.node)
-        oknew = "hdr = header.copy()" in srce and "hdr.update({key: value})" in srce and norm(encs[0].args[0]) == "hdr" and "header = parse_header(filename)" in srce
+        nfe = normal_form(ed)
+        copies = [e for e in nfe.effects if e.kind == "set" and e.target.startswith("$v") and e.text() == canon("parse_header(filename).copy()")]
+        oknew = bool(copies)
+        for cp in copies:
+            ups = [e for e in nfe.effects if e.kind == "expr" and e.text().startswith(cp.target + ".update({key: ") and set(cp.ctx) <= set(e.ctx)]
+            others = [e for e in nfe.effects if e.kind in ("expr", "set") and e is not cp and e not in ups and
+                      (e.text().startswith(cp.target + ".") or (e.kind == "set" and e.target.startswith(cp.target))) and set(cp.ctx) <= set(e.ctx)]
+            wr = [e for e in nfe.effects if e.kind == "expr" and ".write(" in e.text() and set(cp.ctx) <= set(e.ctx)]
+            oknew = oknew and len(ups) == 1 and not others and all(e.text().endswith(f".write(encode_header({cp.target}))") for e in wr) and bool(wr)
         (res.ok if oknew else res.bad)("R5", ed, encs[0], "new header = parsed header with exactly {key: value} replaced" if oknew else
                                        "the re-encoded header is not the parsed header with only the edited key replaced", key=key)
     else:
-        res.bad("R5", ed, ed.node, f"edit_header shape changed: {len(writes)} write(s), {len(guards)} length guard(s), {len(opens)} open(s)",
+        res.bad("R5", ed, ed.node, f"edit_header shape changed: {len(writes)} write(s), {len(opens)} open(s), {len(encs)} encode(s)",
                 construct="edit_header", key=key)
-    kg = [s for s in body_walk(ed.node) if isinstance(s, ast.If) and norm(s.test) == "key not in header_keys" and always_raises(s.body)]
-    key = "edit:key-guard"
+    fl_ed = flow
     first_io = [c for c in calls_in_body(ed.node) if dotted(c.func) in ("parse_header", "validate_path", "encode_header")]
-    if kg and all(cfg.dominates(cfg.node_for(kg[0]), cfg.node_for(c)) for c in first_io):
-        res.ok("R5", ed, kg[0], "an unknown key raises ValueError before the file is touched", key=key)
+    pc = path_conditions(fl_ed)
+    key = "edit:key-guard"
+
+    def _key_known(e, pol):
+        return isinstance(e, ast.Compare) and len(e.ops) == 1 and norm(e.left) == "key" and norm(e.comparators[0]) == "header_keys" and \
+            ((isinstance(e.ops[0], ast.In) and pol) or (isinstance(e.ops[0], ast.NotIn) and not pol))
+
+    from ..pathcond import rejection
+    facts = [pc.truth(c, _key_known) for c in first_io]
+    if first_io and all(f is not None and "ValueError" in (rejection(pc, f) or ()) for f in facts):
+        res.ok("R5", ed, ed.node, "an unknown key raises ValueError before the file is touched", key=key, construct="key guard")
     else:
         res.bad("R5", ed, ed.node, "an unknown key is not rejected before the file is read/opened", construct="edit_header", key=key)
 
